@@ -36,6 +36,10 @@ def P(explanation, tasks, bounds=STEP_BOUNDS, assumptions=STEP_ASSUME, level="mo
 
 PROPS = {}
 
+
+def usage_ops_late(tier, mode, want):
+    return usage_ops(tier, mode, want)
+
 PROPS["C01"] = P(
     "step(add) stores exactly one row and commits before fan-out; step(open) replays exactly the stored "
     "messages of (app, mailbox id); every operation changes a message slot only by deleting it together "
@@ -74,7 +78,8 @@ PROPS["C08"] = P(
 PROPS["C09"] = P(
     "at every transport send in every step of every operation both stores have no open transaction, and "
     "every operation ends clean on every path (with and without usage store)",
-    lambda tier: all_ops(tier, ["C09."]) + all_ops(tier, ["C09."], usage=True))
+    lambda tier: all_ops(tier, ["C09."]) +
+                 (all_ops(tier, ["C09."], usage="plain") if tier == "thorough" else usage_ops_late(tier, "plain", ["C09."])))
 
 PROPS["C17"] = P(
     "arbitrary JSON object (symbolic key presence, symbolic string values, two junk keys) on a connection in "
@@ -240,8 +245,10 @@ PROPS["C10"] = P(
     "usage store; (3) for every committed snapshot of claim / release / open / close the same command re-sent "
     "on a fresh connection at the same instant gets the same answer and the same final store as the "
     "uncrashed run",
-    lambda tier: all_ops(tier, ["C10."]) + all_ops(tier, ["C10."], usage="plain", sweep_too=False,
-                                                   skip=("step.bind", "step.list", "step.disconnect", "step.add", "step.open")) +
+    lambda tier: all_ops(tier, ["C10."]) +
+                 (all_ops(tier, ["C10."], usage="plain", sweep_too=False,
+                          skip=("step.bind", "step.list", "step.disconnect", "step.add", "step.open"))
+                  if tier == "thorough" else []) +
                  [dict(ob="sweep.step", params=dict(tier=tier, relaxed=True, others=["none", "sub0s0"]), want=["C10."]),
                   dict(ob="sweep.step", params=dict(tier=tier, relaxed=True, usage="plain", others=["none"]), want=["C10."]),
                   dict(ob="crash.resume", params=dict(tier=tier), want=["C10."])])
